@@ -99,17 +99,22 @@ impl Boudot2000RangeProof {
     where
         H: Digest,
     {
-        let omega = rand_int(
-            Integer::from(1),
-            Integer::from(2).pow(l + t) * b - Integer::from(1),
-        );
+        // The challenge below is the full hash output, and the secrets of a proof of square (the
+        // square root and r_1 - r_2 * x) can be far larger than b and 2^s2 * n: every blinding term
+        // must cover 2^l * challenge * secret, otherwise floor(d / challenge) is the secret.
+        let c_bits = (2 * t).max(8 * <H as Digest>::output_size() as u32);
+        let cover = |secret: &Integer, at_least: Integer| -> Integer {
+            let size = Integer::from(2).pow(secret.significant_bits());
+            Integer::from(2).pow(l + c_bits) * if size > at_least { size } else { at_least }
+        };
+        let omega = rand_int(Integer::from(1), cover(x, b.clone()) - Integer::from(1));
         let mu_1 = rand_int(
             Integer::from(1),
-            Integer::from(2).pow(l + t + s1) * n - Integer::from(1),
+            cover(r_1, Integer::from(2).pow(s1) * n) - Integer::from(1),
         );
         let mu_2 = rand_int(
             Integer::from(1),
-            Integer::from(2).pow(l + t + s2) * n - Integer::from(1),
+            cover(r_2, Integer::from(2).pow(s2) * n) - Integer::from(1),
         );
         let w_1 = (Integer::from(g_1.pow_mod_ref(&omega, n).unwrap())
             * Integer::from(h_1.pow_mod_ref(&mu_1, n).unwrap()))
